@@ -1724,3 +1724,121 @@ def heterogeneous_rule(ctx, rid="R2.E3"):
         return (f"heterogeneous {kind}", anchor, thunk)
 
     run_scenarios(ctx, r, [scenario("E per element"), scenario("E per point"), scenario("rho per element")])
+
+
+# ---------------------------------------------------------------------------------------------------------------------
+# C17 (shared with C15 / C16 / C14): damage simulations end to end - load, unload, re-activate, go back, reload
+PF_MODEL = "EasyFEA.Models._phasefield.PhaseField"
+PF_SIMU = "EasyFEA.Simulations._phasefield.PhaseField"
+
+
+def phasefield_rule(ctx, rid="R17.E1"):
+    """A whole staggered damage analysis interpreted end to end: `Models.PhaseField(material, split, regu, Gc, l0, solver)`,
+    `Simulations.PhaseField(mesh, model)`, and for every load step `Bc_Init / add_dirichlet / Solve / Save_Iter`, with reads
+    in the middle of the history (`Set_Iter(-1)`, `Result(..., iter=k)`), an unloading, a return to an earlier iteration and
+    a reload.  The linear backend is exact elimination rounded to 30 digits (the rationals would otherwise square at every
+    step); every statement below is an inequality or an equality decided with a margin of 1e-20.
+
+    Decided on that history (TRI3 / QUAD4 box, Bourdin and Amor splits - both rational -, AT2, History and
+    HistoryDamage solvers, one pass per step and several staggered passes per step):
+      * with no loading the damage and the driving energy are exactly zero;
+      * the driving energy reported per element (Result 'psiP') never decreases from one saved step to the next, whatever
+        was read in between (re-activation of the current iteration, a read of an earlier iteration and back);
+      * for the damage-based solver the saved nodal damage never decreases either;
+      * going back: Set_Iter(k) brings back the damage, the displacement and the strain energy `Wdef` recorded when
+        iteration k was saved (the degraded stiffness is the one of THAT damage)."""
+    repo = ctx.repo
+    r = ctx.rule(rid, "damage analysis end to end (load, unload, reads in the middle of the history, return to an earlier iteration, reload): no loading -> no damage; the saved driving energy per element never decreases (History solver); the saved nodal damage never decreases for the damage-based solver; Set_Iter(k) brings back damage, displacement and Wdef of iteration k", min_instances=3)
+    anchor = repo.lookup_method(repo.cls(PF_SIMU), "Solve")
+    W0 = World(repo)
+    MARGIN = Q(1, 10**20)
+
+    def nums(a):
+        out = []
+        for p in polys(a):
+            if not p.is_const():
+                raise Undecided("a symbolic value where a number was expected")
+            out.append(Q(p.const_value()) if not hasattr(p.const_value(), "approx") else Q(p.const_value().approx()))
+        return out
+
+    def scenario(elem, split, regu, solver, tolConv):
+        def thunk():
+            W = World(repo, lib=W0.lib, extra={"MPI_RANK": 0}, round_digits=30)
+            md, mesh = domain_mesh(W, elem)
+            mat = W.new(ISO, 2, E=Q(3), v=Q(1, 4), planeStress=True, thickness=Q(1, 2))
+            pfm = W.new(PF_MODEL, mat, split, regu, Q(1, 10), Q(1, 2), solver=solver)
+            simu = W.new(PF_SIMU, mesh, pfm)
+            left = boundary_nodes(W, md, lambda c: c[0] == 0)
+            right = boundary_nodes(W, md, lambda c: c[0] == 2)
+            tag = f"{elem} {split} {regu} {solver}{'' if tolConv == 1 else ' staggered to convergence'}"
+            saved = []  # per saved iteration: damage, displacement, psiP per element, Wdef
+
+            def step(ux):
+                W.call(simu, "Bc_Init")
+                W.call(simu, "add_dirichlet", iarr(left), [Q(0), Q(0)], ["x", "y"])
+                W.call(simu, "add_dirichlet", iarr(right), [ux], ["x"])
+                if tolConv == 1:
+                    W.call(simu, "Solve")
+                else:
+                    W.call(simu, "Solve", tolConv, 6, 0)
+                W.call(simu, "Save_Iter")
+                rec = {"d": nums(W.get(simu, "damage")), "u": nums(W.get(simu, "displacement")), "H": nums(W.call(simu, "Result", "psiP", False)), "W": nums(W.call(simu, "Result", "Wdef"))[0], "ux": ux}
+                saved.append(rec)
+                k = len(saved) - 1
+                if k == 0:
+                    return None
+                prev = saved[k - 1]
+                # (the history field exists for the History solver only: the damage-based solvers drive the damage with the
+                # instantaneous energy and enforce irreversibility on the damage itself)
+                for e, (a, b) in enumerate(zip(prev["H"], rec["H"]) if solver == "History" else ()):
+                    if b < a - MARGIN:
+                        return f"{tag}: saved step {k} (prescribed displacement {ux} after {prev['ux']}): the driving energy of element {e} falls from {float(a):.6g} to {float(b):.6g} between two saved steps (the history field decreased: the damage it drives heals)"
+                if solver != "History":
+                    for n, (a, b) in enumerate(zip(prev["d"], rec["d"])):
+                        if b < a - MARGIN:
+                            return f"{tag}: saved step {k} (prescribed displacement {ux} after {prev['ux']}): the damage of node {n} falls from {float(a):.6g} to {float(b):.6g} between two saved steps"
+                return None
+
+            bad = step(Q(0))
+            if bad:
+                return bad
+            if any(x != 0 for x in saved[0]["d"]) or any(x != 0 for x in saved[0]["H"]):
+                return f"{tag}: with no loading the damage / driving energy are not zero: max damage {float(max(saved[0]['d'])):.3g}"
+            for ux in (Q(1, 2), Q(1)):
+                bad = step(ux)
+                if bad:
+                    return bad
+            # reads in the middle of the history, then an unloading
+            W.call(simu, "Set_Iter", -1)
+            bad = step(Q(1, 4))
+            if bad:
+                return bad
+            W.call(simu, "Result", "damage", True, 1)
+            W.call(simu, "Set_Iter", -1)
+            for ux in (Q(0), Q(3, 4)):
+                bad = step(ux)
+                if bad:
+                    return bad
+            if solver != "History" and max(saved[-1]["d"]) <= 0:
+                raise Undecided("the scenario did not damage the body")
+            # going back to an earlier iteration brings back what was saved with it
+            for k in (2, 3, len(saved) - 1):
+                W.call(simu, "Set_Iter", k)
+                cur = {"d": nums(W.get(simu, "damage")), "u": nums(W.get(simu, "displacement")), "W": nums(W.call(simu, "Result", "Wdef"))[0]}
+                for nm in ("d", "u"):
+                    if cur[nm] != saved[k][nm]:
+                        return f"{tag}: after Set_Iter({k}) the {'damage' if nm == 'd' else 'displacement'} is not the one saved with iteration {k}"
+                # (Wdef is compared for the split-free model only: with a strain-dependent split the stiffness in use right after
+                # Solve was assembled at the PREVIOUS displacement - the staggered lag - and the one rebuilt after Set_Iter at the
+                # restored displacement; the two legitimately differ where the sign of the trace changed in the step)
+                if split == "Bourdin" and abs(cur["W"] - saved[k]["W"]) > MARGIN:
+                    return f"{tag}: after Set_Iter({k}) Result('Wdef') = {float(cur['W']):.6g}; it was {float(saved[k]['W']):.6g} when iteration {k} was saved (the degraded stiffness in use is not the one of the restored damage)"
+            return None
+
+        return (f"damage analysis {elem} {split} {regu} {solver}{'' if tolConv == 1 else ' tolConv<1'}", anchor, thunk)
+
+    scen = [scenario("TRI3", "Bourdin", "AT2", "History", 1), scenario("TRI3", "Amor", "AT2", "HistoryDamage", 1), scenario("TRI3", "Bourdin", "AT2", "HistoryDamage", Q(1, 1000)),
+            scenario("QUAD4", "Amor", "AT2", "History", 1)]
+    if ctx.tier == "thorough":
+        scen += [scenario("QUAD4", "Bourdin", "AT2", "HistoryDamage", Q(1, 1000)), scenario("TRI6", "Amor", "AT2", "History", 1), scenario("TRI3", "Amor", "AT2", "History", Q(1, 1000))]
+    run_scenarios(ctx, r, scen)
